@@ -74,23 +74,24 @@ def load_line(dim, n, mask, rows, unused):
 
 
 def dy(rng, lo=-8, hi=8, den=4):
-    """small dyadic rational token"""
-    num = rng.randint(lo * den, hi * den)
+    """small dyadic rational token; for den > 2^20 the value is k/den with |k| <= 32 (a tiny mesh)"""
+    num = rng.randint(lo * den, hi * den) if den <= (1 << 20) else rng.randint(-32, 32)
     import math
     g = math.gcd(num, den)
     nn, dd = num // g, den // g
     return str(nn) if dd == 1 else f"{nn}/{dd}"
 
 
-def value_lines(rng, n, mask, dim=2, pv=0.8, pa=0.6):
-    """random defined/undefined pattern for vertices and attributes at every dart id"""
+def value_lines(rng, n, mask, dim=2, pv=0.8, pa=0.6, den=4):
+    """random defined/undefined pattern for vertices and attributes at every dart id; `den` = denominator of the
+    dyadic coordinates (a large power of two gives a tiny mesh: lengths around 1/den)"""
     out = []
     for d in range(1, n + 1):
         if rng.random() < pv:
             if dim == 2:
-                out.append(f"wv {d} {dy(rng)} {dy(rng)}")
+                out.append(f"wv {d} {dy(rng, den=den)} {dy(rng, den=den)}")
             else:
-                out.append(f"wv {d} {dy(rng)} {dy(rng)} {dy(rng)}")
+                out.append(f"wv {d} {dy(rng, den=den)} {dy(rng, den=den)} {dy(rng, den=den)}")
         for st in range(1, 6):
             if (mask >> (st - 1)) & 1 and rng.random() < pa:
                 out.append(f"wa {st} {d} {100 * st + d}")
